@@ -10,6 +10,11 @@
 (*    hi = number of commits that had been CALLED when the call (for an iterator: its    *)
 (*    opening) returned. The observation must be exactly KV's outside read taken in ONE  *)
 (*    of the committed versions lo..hi: never a mixture, never a lost or a phantom write;*)
+(*  * directed scenarios (h_kv nested / inflight) are recorded in their real, deterministic  *)
+(*    order: store iterators held by a thread across its own lookups, batches and commits *)
+(*    (OutIterOpen / OutIterNext / OutIterClose with the owning thread), and single-key   *)
+(*    reads stopped in the middle of their value while another thread commits (ReadBegin   *)
+(*    .. ReadEnd); these must be exactly KV's actions and yield exactly KV's results;      *)
 (*  * Crash = the process ended (killed right before / right after commit(), or a clean  *)
 (*    close): what is observed afterwards is the last committed version.                 *)
 (* Assumption made explicit (KV!BatchMax): every recorded batch writes <= 60 KiB of      *)
@@ -31,6 +36,8 @@ tvars == <<vars, l, vers>>
 
 IsEvent(k) == l <= Len(Rec) /\ Rec[l].k = k /\ l' = l + 1
 E == Rec[l]
+\* the thread an event belongs to (the batches of the threaded runs are serial: thread 1 stands for their writers)
+Th == IF "t" \in DOMAIN E THEN E.t ELSE 1
 
 Vers0 == [lo |-> 0, maps |-> <<EmptyMap>>]
 NextIdx == vers.lo + Len(vers.maps)
@@ -40,7 +47,7 @@ InWindow(j) == j >= vers.lo /\ j < NextIdx
 TInit == Init /\ l = 1 /\ vers = Vers0
 
 Same == UNCHANGED vers
-TBegin       == IsEvent("Begin") /\ Begin /\ Same
+TBegin       == IsEvent("Begin") /\ Begin(Th) /\ Same
 TPut         == IsEvent("Put") /\ Put(E.sp, E.key, E.val) /\ Same
 TDel         == IsEvent("Del") /\ Del(E.sp, E.key) /\ Same
 TGet         == IsEvent("Get") /\ Get(E.sp, E.key) /\ act'.res = E.res /\ Same
@@ -64,17 +71,26 @@ TOutExists == /\ IsEvent("OutExists") /\ UNCHANGED vars /\ Same
 TOutIter   == /\ IsEvent("OutIter") /\ UNCHANGED vars /\ Same
               /\ \E j \in E.lo..E.hi : InWindow(j) /\ IterRes(VerAt(j), E.sp) = E.res
 
+\* store iterators held across other store calls, reads in flight (directed scenarios; exact order)
+TOutIterOpen  == IsEvent("OutIterOpen") /\ OutIterOpen(Th, E.r, E.sp) /\ Same
+TOutIterNext  == IsEvent("OutIterNext") /\ OutIterNext(E.r) /\ act'.res = E.res /\ Same
+TOutIterClose == IsEvent("OutIterClose") /\ OutIterClose(E.r) /\ Same
+TReadBegin    == IsEvent("ReadBegin") /\ ReadBegin(Th, E.sp, E.key) /\ Same
+TReadEnd      == IsEvent("ReadEnd") /\ ReadEnd(Th) /\ act'.res = E.res /\ Same
+
 \* next recorded run (a fresh store)
 TReset == /\ IsEvent("Reset")
-          /\ committed' = EmptyMap /\ stack' = <<>> /\ shadow' = <<>>
-          /\ snap' = [r \in Readers |-> NoSnap]
-          /\ mapSize' = MapInit /\ used' = 0 /\ pend' = 0
-          /\ resizing' = FALSE /\ parked' = "no"
+          /\ committed' = EmptyMap /\ stack' = <<>> /\ shadow' = <<>> /\ bown' = 0
+          /\ snap' = [r \in Readers |-> NoSnap] /\ rd' = [t \in Threads |-> NoRd]
+          /\ mapSize' = MapInit /\ used' = UsedInit /\ pend' = 0 /\ squeezed' = FALSE
+          /\ resizing' = FALSE /\ wait' = [t \in Threads |-> "no"]
+          /\ cnt' = 0 /\ mark' = [t \in Threads |-> 0] /\ torn' = FALSE
           /\ act' = [k |-> "Reset"]
           /\ vers' = Vers0
 
 TNext == \/ TBegin \/ TPut \/ TDel \/ TGet \/ TExists \/ TIter \/ TChild \/ TCommitChild \/ TDropChild
          \/ TDrop \/ TCommit \/ TCrash \/ TOutGet \/ TOutExists \/ TOutIter \/ TReset
+         \/ TOutIterOpen \/ TOutIterNext \/ TOutIterClose \/ TReadBegin \/ TReadEnd
 TSpec == TInit /\ [][TNext]_tvars
 
 Accepted == LET d == TLCGet("stats").diameter IN
